@@ -331,34 +331,38 @@ class OpenSystem:
                 # Time dependent combined tensor
                 ham.subtract_cutoff_coupling(coupling_cutoff)
                 ham.protect_basis()
-                with eigenbasis_of(ham):
-                    relaxT = \
-                             TDRedfieldFoersterRelaxationTensor(ham, sbi,
-                                            coupling_cutoff=coupling_cutoff,
-                                            cutoff_time=relaxation_cutoff_time)
-                    if secular_relaxation:
-                        relaxT.secularize()
-                ham.unprotect_basis()
-                ham.recover_cutoff_coupling()
+                try:
+                    with eigenbasis_of(ham):
+                        relaxT = \
+                                 TDRedfieldFoersterRelaxationTensor(ham, sbi,
+                                                coupling_cutoff=coupling_cutoff,
+                                                cutoff_time=relaxation_cutoff_time)
+                        if secular_relaxation:
+                            relaxT.secularize()
+                finally:
+                    ham.unprotect_basis()
+                    ham.recover_cutoff_coupling()
 
             else:
 
                 # Time independent combined tensor
                 ham.subtract_cutoff_coupling(coupling_cutoff)
                 ham.protect_basis()
-                with eigenbasis_of(ham):
-                    relaxT = \
-                             RedfieldFoersterRelaxationTensor(ham, sbi,
-                                            coupling_cutoff=coupling_cutoff,
-                                            cutoff_time=relaxation_cutoff_time)
-                    if secular_relaxation:
-                        relaxT.secularize()
+                try:
+                    with eigenbasis_of(ham):
+                        relaxT = \
+                                 RedfieldFoersterRelaxationTensor(ham, sbi,
+                                                coupling_cutoff=coupling_cutoff,
+                                                cutoff_time=relaxation_cutoff_time)
+                        if secular_relaxation:
+                            relaxT.secularize()
 
-                    #print("Last line of the context", 
-                    #      Manager().get_current_basis())
-                #print("Left context", Manager().get_current_basis())
-                ham.unprotect_basis()
-                ham.recover_cutoff_coupling()
+                        #print("Last line of the context", 
+                        #      Manager().get_current_basis())
+                    #print("Left context", Manager().get_current_basis())
+                finally:
+                    ham.unprotect_basis()
+                    ham.recover_cutoff_coupling()
 
             #
             # create a corresponding propagator
